@@ -194,6 +194,7 @@ def run(ctx) -> None:
                 "non-zero cross-patch cell or unequal patch radii")
     ctx.assume("all separations are multiples of 5 deg and all scale thresholds lie between lattice distances: geometry between lattice points is not exercised (C14)")
     pair_iteration(ctx)
+    progress_wrapper(ctx)
     F = families(quick)
     embs = ["equator", "ra_wrap", "meridian_pole", "tilted"] if quick else list(sky.EMBEDDINGS)
     nreal = 40 if quick else 400
@@ -272,6 +273,106 @@ def pair_iteration(ctx):
         elif got not in orders:
             ctx.drift("C01|iter_patch_id_pairs|order_not_among_model_orders", dict(links={k: sorted(v) for k, v in links.items()}, auto=auto, yielded=list(got)))
     ctx.extra["pair_iteration"] = dict(link_relations=len(allowed) // 2, patches=np_)
+
+
+def progress_wrapper(ctx):
+    """spec/Progress.tla: the Indicator progress wrapper around every result iterator of a
+    progress=True run (pair counts, trees, input chunks).  Every terminal behaviour TLC
+    enumerates (item count, root/other rank, known/unknown total, failing source, every
+    pattern of clock advances) is replayed on the real class with a scripted clock; the
+    items handed on must be the source's items, each once, in order."""
+    import io
+    import math
+
+    import yaw.utils.logging as ylog
+    from harness import tlc
+
+    maxn = 3 if ctx.quick else 4
+    consts = dict(MaxN=maxn, Ticks="{0, 1, 2}", Intervals="{0, 1}")
+    laws = ["PassThrough", "CompleteAtEnd", "RaisePropagates", "SilentOffRoot", "Throttled", "CloseCountsAll"]
+    cfg = tlc.make_cfg(constants=dict(consts, Dev='"none"'), invariants=laws + ["PrintDone"], properties=["Termination"])
+    res = tlc.run("Progress", cfg, coverage=True)
+    ctx.add_tlc(f"Progress: Indicator over <= {maxn} items, every clock pattern", res)
+    ctx.require(res.ok, f"Progress violated: {res.error_kind} {res.error_name}")
+    for act in ("Begin", "Step", "StepOff", "Raise", "Close"):
+        ctx.require(res.coverage.get(act, (0, 0))[1] > 0, f"Progress action {act} never taken")
+    dev = tlc.run("Progress", tlc.make_cfg(constants=dict(consts, Dev='"SkipWhenFast"'), invariants=["PassThrough"]), workers=1)
+    ctx.add_tlc("Progress deviation SkipWhenFast (throttle skips the yield)", dev)
+    ctx.require(dev.error_kind == "invariant" and dev.error_name == "PassThrough", "deviation SkipWhenFast gave no PassThrough counterexample")
+
+    class Recorder:
+        def __init__(self):
+            self.calls = []
+
+        def display(self, step, frac, elapsed):
+            self.calls.append((int(step), float(elapsed), False, frac))
+
+        def close(self, step, frac, elapsed):
+            self.calls.append((int(step), float(elapsed), True, frac))
+
+    class SourceError(RuntimeError):
+        pass
+
+    behaviours = res.printed("prog")
+    ctx.require(len(behaviours) > 100, f"only {len(behaviours)} Progress behaviours printed")
+    saved = (ylog.default_timer, ylog.on_root)
+    seen = set()
+    try:
+        for n, known, root, failat, interval, ticks, yielded, shown, st in behaviours:
+            key = (n, known, root, failat, interval, tuple(ticks))
+            if key in seen:
+                continue
+            seen.add(key)
+            items = [f"item{k}" for k in range(1, n + 1)]
+
+            def source():
+                for k, it in enumerate(items, 1):
+                    if k == failat:
+                        raise SourceError(k)
+                    yield it
+
+            clock = [0.0]
+            for d in ticks:
+                clock.append(clock[-1] + float(d))
+            reads = []
+
+            def timer():
+                reads.append(1)
+                return clock[min(len(reads) - 1, len(clock) - 1)]
+
+            ylog.default_timer, ylog.on_root = timer, (lambda r=root: bool(r))
+            rec = Recorder()
+            got, outcome = [], "closed"
+            try:
+                ind = ylog.Indicator(source(), n if known else None, min_interval=float(interval), stream=io.StringIO())
+                ind.printer = rec
+                for it in ind:
+                    got.append(it)
+            except SourceError:
+                outcome = "raised"
+            except Exception as err:  # noqa: BLE001
+                outcome = "raises_" + type(err).__name__
+            ctx.evaluated(1, ("progress",) + key)
+            ctx.validated(1)
+            cond = ("fast_arrivals" if 0 in ticks else "slow_arrivals") if root else "other_rank"
+            if failat:
+                cond = "source_raises"
+            case = dict(items=n, total_known=bool(known), root=bool(root), source_raises_at=failat, min_interval=interval, clock_advances=list(ticks),
+                        handed_on=got, outcome=outcome)
+            want = [items[k - 1] for k in yielded]
+            if got != want:
+                ctx.violation(f"C01|progress_indicator|{cond}|items_not_passed_through_exactly_once_in_order", dict(case, expected=want))
+            elif outcome != st:
+                ctx.violation(f"C01|progress_indicator|{cond}|ends_{outcome}_instead_of_{st}", case)
+            else:
+                model = [(r["i"], float(r["e"]), bool(r["c"])) for r in shown[(1 if root else 0):]]   # start line: written by __init__ to the stream
+                if [c[:3] for c in rec.calls] != model or len(reads) != len(clock) * bool(root):
+                    ctx.drift("C01|progress_indicator|display_differs_from_model", dict(case, displays=[c[:3] for c in rec.calls], model=model, timer_reads=len(reads)))
+                elif any((math.isnan(c[3]) != (not known or n == 0)) for c in rec.calls):
+                    ctx.drift("C01|progress_indicator|fraction_differs_from_model", dict(case, displays=[repr(c) for c in rec.calls]))
+    finally:
+        ylog.default_timer, ylog.on_root = saved
+    ctx.extra["progress_wrapper"] = dict(behaviours=len(seen), max_items=maxn, clock_advances=[0, 1, 2], min_intervals=[0, 1])
 
 
 def expected_for(ctx, sc, st):
